@@ -1,10 +1,12 @@
 package main
 
 import (
+	"bytes"
 	"encoding/json"
 	"fmt"
 	"os"
 	"path/filepath"
+	"reflect"
 	"regexp"
 	"runtime"
 	"sort"
@@ -53,20 +55,21 @@ type Spec struct {
 }
 
 type instResult struct {
-	Inst      Inst
-	fn        *ssa.Function
-	mu        sync.Mutex
-	Paths     int
-	ByKind    map[string]int
-	Covers    map[string]int
-	Bad       []exec.Outcome
-	Samples   []exec.Outcome
-	Capped    bool
-	busy      int
-	Decisions int
-	Uncertain int
-	Elapsed   float64
-	Races     map[string]bool
+	Inst       Inst
+	fn         *ssa.Function
+	mu         sync.Mutex
+	Paths      int
+	ByKind     map[string]int
+	Covers     map[string]int
+	Bad        []exec.Outcome
+	Samples    []exec.Outcome
+	Capped     bool
+	Incomplete bool
+	busy       int
+	Decisions  int
+	Uncertain  int
+	Elapsed    float64
+	Races      map[string]bool
 }
 
 type workItem struct {
@@ -147,15 +150,30 @@ type runStats struct {
 }
 
 type options struct {
-	workers    int
-	solver     string
-	timeoutMs  int
-	samplesPer int
-	trace      bool
-	solverSet  bool
-	budgetS    int
-	known      []finding
-	prop       string
+	workers     int
+	solver      string
+	timeoutMs   int
+	samplesPer  int
+	trace       bool
+	solverSet   bool
+	budgetS     int
+	known       []finding
+	prop        string
+	noEarlyStop bool // explore everything even after a counterexample (cross-solver pass)
+}
+
+// verdictSig is the sorted set of distinct non-ok outcomes of an instance.
+func verdictSig(r *instResult) string {
+	set := map[string]bool{}
+	for _, o := range r.Bad {
+		set[o.Kind+"|"+o.Detail+"|"+o.Site] = true
+	}
+	var ks []string
+	for k := range set {
+		ks = append(ks, k)
+	}
+	sort.Strings(ks)
+	return strings.Join(ks, ";")
 }
 
 // explore runs all instances on a shared worker pool.
@@ -292,7 +310,8 @@ func explore(l *loaded, insts []Inst, opt options) ([]*instResult, runStats, err
 					if len(ir.Bad) < 400 {
 						ir.Bad = append(ir.Bad, out)
 					}
-					if out.Kind != "unsupported" && out.Kind != "engine-error" && matchFinding(opt.known, opt.prop, ir.Inst, out) == nil {
+					// an outcome reached past a solver "unknown" is not a settled counterexample: it must not end the exploration early
+					if out.Kind != "unsupported" && out.Kind != "engine-error" && !out.Uncertain && !opt.noEarlyStop && matchFinding(opt.known, opt.prop, ir.Inst, out) == nil {
 						smu.Lock()
 						first := len(distinct) == 0
 						distinct[sig(ir.Inst, out)] = true
@@ -370,6 +389,9 @@ func explore(l *loaded, insts []Inst, opt options) ([]*instResult, runStats, err
 	}
 	wg.Wait()
 	stats.BudgetHit = p.budgetHit
+	for _, r := range results {
+		r.Incomplete = len(p.stacks[r]) > 0 // alternatives left unexplored (budget or early stop)
+	}
 	return results, stats, firstErr
 }
 
@@ -549,6 +571,7 @@ func runCheck(prop, tier string, opt options) int {
 		opt2.solver = alt
 		opt2.budgetS = 900
 		opt2.timeoutMs = 30000
+		opt2.noEarlyStop = true
 		res2, st2, err2 := explore(l, qi, opt2)
 		if err2 == nil {
 			byKey := map[string]*instResult{}
@@ -560,12 +583,16 @@ func runCheck(prop, tier string, opt options) int {
 				if r1 == nil || r2.Uncertain > 0 || r1.Uncertain > 0 || r2.ByKind["unsupported"] > 0 {
 					continue
 				}
-				if st2.BudgetHit {
-					// only instances whose exploration certainly finished are comparable: skip when the budget was hit
+				if r1.Incomplete || r2.Incomplete || r1.Capped || r2.Capped {
+					// only instances whose exploration finished in both runs are comparable
 					continue
 				}
+				// the verdict (set of distinct non-ok outcomes) must agree; path counts are compared only
+				// when the two runs explored the very same instance (the thorough tier may use other bounds
+				// under the same harness arguments)
 				crossChecked++
-				if fmt.Sprint(r1.ByKind) != fmt.Sprint(r2.ByKind) {
+				same := reflect.DeepEqual(r1.Inst, r2.Inst)
+				if verdictSig(r1) != verdictSig(r2) || (same && fmt.Sprint(r1.ByKind) != fmt.Sprint(r2.ByKind)) {
 					crossMismatch = append(crossMismatch, fmt.Sprintf("%s: %s %v vs %s %v", r2.Inst.Key(), opt.solver, r1.ByKind, alt, r2.ByKind))
 				}
 			}
@@ -786,8 +813,16 @@ func runCheck(prop, tier string, opt options) int {
 	if budgetNote != "" {
 		inconclusive = append(inconclusive, budgetNote)
 	}
+	reduced := ""
 	if len(missingHarness) > 0 {
-		inconclusive = append(inconclusive, fmt.Sprintf("%d instance(s) not run: harness file(s) %v do not compile against the current tree (in-package harnesses name unexported identifiers); first: %s", len(missingHarness), droppedHarness, missingHarness[0]))
+		msg := fmt.Sprintf("%d of %d instance(s) not run: harness file(s) %v do not compile against the current tree (in-package step harnesses name unexported identifiers that changed); first: %s", len(missingHarness), len(insts), droppedHarness, missingHarness[0])
+		if len(results) == 0 {
+			inconclusive = append(inconclusive, msg)
+		} else {
+			// reduced coverage: the verdict rests on the instances that still compile (the black-box
+			// ones are written against the exported API); stated on stdout and in the evidence
+			reduced = msg
+		}
 	}
 	for _, m := range crossMismatch {
 		inconclusive = append(inconclusive, "solver disagreement: "+m)
@@ -795,6 +830,9 @@ func runCheck(prop, tier string, opt options) int {
 	// vacuity
 	for _, c := range spec.Covers {
 		if covers[c] == 0 {
+			if reduced != "" && witnessOnlyInDropped(c) {
+				continue // its harness was not run (reduced coverage, reported as such)
+			}
 			inconclusive = append(inconclusive, "vacuity: witness "+c+" never reached")
 		}
 	}
@@ -871,6 +909,7 @@ func runCheck(prop, tier string, opt options) int {
 			"bounds":                        spec.Bounds,
 			"outside_bounds":                spec.Outside,
 			"inconclusive":                  inconclusive,
+			"reduced_coverage":              reduced,
 			"known_findings_seen":           knownList,
 			"ssa_instructions_executed":     stats.Instrs,
 			"scheduler_steps":               stats.Sched,
@@ -891,6 +930,9 @@ func runCheck(prop, tier string, opt options) int {
 	}
 	fmt.Printf("%s %s: %d instances, %d paths %v, %d queries, solver %.1fs, native-validated %d, wall %.1fs\n",
 		prop, tier, len(insts), totalPaths, byKind, stats.Queries, stats.SolverS, validated, wall)
+	if reduced != "" {
+		fmt.Println("REDUCED-COVERAGE:", reduced)
+	}
 	if violations > 0 {
 		return 1
 	}
@@ -903,6 +945,33 @@ func runCheck(prop, tier string, opt options) int {
 		return 2
 	}
 	return 0
+}
+
+// witnessOnlyInDropped: the witness label occurs in dropped harness files only.
+func witnessOnlyInDropped(c string) bool {
+	lit := []byte(`verifCover("` + c + `")`)
+	inDropped, inKept := false, false
+	for hp := range harnessPkgs {
+		files, _ := filepath.Glob(filepath.Join(verifDir, "harness", hp, "zz_verif_*.go"))
+		for _, f := range files {
+			b, err := os.ReadFile(f)
+			if err != nil || !bytes.Contains(b, lit) {
+				continue
+			}
+			dropped := false
+			for _, d := range droppedHarness {
+				if d == filepath.Base(f) {
+					dropped = true
+				}
+			}
+			if dropped {
+				inDropped = true
+			} else {
+				inKept = true
+			}
+		}
+	}
+	return inDropped && !inKept
 }
 
 // isTwinKind: violations whose native confirmation is a twin run (same input, different garbage).
